@@ -61,7 +61,7 @@ MANIFEST = dict(
     technique='RFC-derived frame decoder written in TLA+ (Wire.tla) checked against hand-assembled example packets (TLC, ASSUME level); P-spec TraceWire validates byte-exact captures of every frame real stacks emit (trace validation: TLC decodes, checksums and judges each frame against the abstract host state rebuilt from logged API/config events)',
     text='harness/wired drives real stacks: single hosts (UDP writes of lengths 0..MTU and beyond from bound/connected/unbound sockets, v4/v6, several NICs/routes incl. gateway routes and two addresses per NIC; dual-stack IPv6 sockets to v4-mapped peers (UDP sendto/connected at the 16-bit limits of both families, TCP active and passive); dense payloads crafted so that the Internet checksum carries twice; echo replies; ARP request/reply; NDP solicit/advert; ping sockets; RST replies to strays; active opens answered by a raw peer with every MSS/WS/TS/SACK-permitted combination; listeners receiving SYNs with every combination; out-of-order data provoking 1-4 SACK blocks), PAIRS of real stacks joined by tapped wires (MTU 68..1500, IPv4/IPv6, data both ways, held-back frames forcing SACK, SYN options stripped in flight to get connections without timestamps/SACK, FIN both ways, gateway routes, real ARP/NDP resolution), next-hop scenarios (nothing pre-resolved, default route via a gateway, a responder on the wire answering ARP/NDP for the gateway and - proxy-ARP style - for every other address with a different MAC; UDP/TCP/ping to off-link destinations; the gateway then changes its MAC) and fd-based Ethernet endpoints over socketpair(2). Every emitted frame is recorded byte for byte; TLC decodes it with the TLA+ decoder and requires WellFormed (lengths, IPv4 header checksum, ICMP/UDP/TCP checksums with pseudo-header, strict TCP option walk), IpIdFresh, SrcByRoute, PortsRight and DstMac (link destination = the MAC most recently learnt for the next hop of the first matching route entry; ARP requests / neighbour solicitations only for next hops).',
     design='5 C06',
-    note='Deviations from DESIGN C06: no separate Stack.tla (the abstract host state - nics, addrs, routes, neigh, socks - is rebuilt inside TraceWire from the logged events); WellFormed takes the EtherType (0 = Ethernet frame) instead of a link kind; ARP/NDP get their own instances of the addressing clauses (sender fields = NIC MAC / an address of the NIC, replies mirror the request, solicitation goes to the solicited-node address); frames of other checks arrive through validate_capture() instead of being aggregated here. Frames of checksum-offload links are exempt from transport-checksum clauses (as the code intends). SrcByRoute accepts any address of the NIC chosen by the first matching route entry (or the mirrored addresses of a packet being answered); the property does not say which of several addresses. NDP solicitations to a solicited-node multicast address may use the broadcast MAC (what the stack does) or the RFC 2464 multicast MAC. Forwarded packets are not driven. Frames are judged one by one: a frame that should have been emitted but was not is outside C06.')
+    note='Deviations from DESIGN C06: no separate Stack.tla (the abstract host state - nics, addrs, routes, neigh, socks - is rebuilt inside TraceWire from the logged events); WellFormed takes the EtherType (0 = Ethernet frame) instead of a link kind; ARP/NDP get their own instances of the addressing clauses (sender fields = NIC MAC / an address of the NIC, replies mirror the request, solicitation goes to the solicited-node address); frames of other checks arrive through validate_capture() instead of being aggregated here. Frames of checksum-offload links are exempt from transport-checksum clauses (as the code intends). SrcByRoute accepts any address of the NIC chosen by the first matching route entry (or the mirrored addresses of a packet being answered); the property does not say which of several addresses. NDP solicitations to a solicited-node multicast address may use the broadcast MAC (what the stack does) or the RFC 2464 multicast MAC. Forwarded packets are not driven. Frames are judged one by one: a frame that should have been emitted but was not is outside C06. PortsRight was strengthened in round 8 by NowRight: a datagram emitted while a write with an explicit destination is in progress (sendto .. wend events) goes to exactly that destination; judged on in-memory links without address resolution only (elsewhere the capture is asynchronous). Connected UDP sockets also write with explicit destinations (connected peer, other port).')
 
 SPEC = ['wire']
 
